@@ -28,45 +28,25 @@ theorem goIndexL_ok (xs : List Bytes) (i : Int) (h0 : 0 ≤ i) (h1 : i < xs.leng
   rw [List.getElem?_eq_getElem this]
   exact ⟨_, rfl⟩
 
-theorem splitSlash_ne_nil (s : Bytes) : splitSlash s ≠ [] := by
+theorem splitSlash_ne_nil (s : Bytes) : GB.C03.splitSlash s ≠ [] := by
   induction s with
-  | nil => simp [splitSlash]
+  | nil => simp [GB.C03.splitSlash]
   | cons c rest ih =>
-    unfold splitSlash
+    unfold GB.C03.splitSlash
     split
     · simp
     · split <;> simp
 
-theorem splitSlash_length_pos (s : Bytes) : 1 ≤ (splitSlash s).length := by
+theorem splitSlash_length_pos (s : Bytes) : 1 ≤ (GB.C03.splitSlash s).length := by
   have := splitSlash_ne_nil s
-  cases h : splitSlash s with
+  cases h : GB.C03.splitSlash s with
   | nil => exact absurd h this
   | cons _ _ => simp
 
-/-- `strings.HasPrefix(k, p+"[") && strings.HasSuffix(k, "]")` forces `len(k) ≥ len(p)+2`. -/
-theorem prefix_suffix_length (k p : Bytes) (hp : hasPrefix k (p ++ [91]) = true) (hs : hasSuffix k [93] = true) :
-    p.length + 2 ≤ k.length := by
-  unfold hasPrefix at hp
-  unfold hasSuffix at hs
-  rw [List.isPrefixOf_iff_prefix] at hp
-  rw [List.isSuffixOf_iff_suffix] at hs
-  obtain ⟨t, ht⟩ := hp
-  obtain ⟨u, hu⟩ := hs
-  cases t with
-  | nil =>
-    -- then k ends with '[' and with ']'
-    exfalso
-    have h1 : k.getLast? = some 91 := by rw [← ht]; simp
-    have h2 : k.getLast? = some 93 := by rw [← hu]; simp
-    rw [h1] at h2
-    exact absurd h2 (by decide)
-  | cons a t' =>
-    rw [← ht]; simp only [List.length_append, List.length_cons, List.length_nil]; omega
-
-theorem suffix_length (s p : Bytes) (h : hasSuffix s p = true) : p.length ≤ s.length := by
-  unfold hasSuffix at h
-  rw [List.isSuffixOf_iff_suffix] at h
-  exact h.length_le
+theorem suffix_length (s p : Bytes) (h : GB.C03.hasSuffix s p = true) : p.length ≤ s.length := by
+  unfold GB.C03.hasSuffix at h
+  simp only [Bool.and_eq_true, decide_eq_true_eq] at h
+  exact h.1
 
 theorem prefix_length (s p : Bytes) (h : hasPrefix s p = true) : p.length ≤ s.length := by
   unfold hasPrefix at h
@@ -135,5 +115,43 @@ theorem backToRuneStart_ok (s : Bytes) : ∀ cut : Nat, cut < s.length →
     · exact ⟨n + 1, rfl, Nat.le_refl _⟩
     · obtain ⟨r, hr, hle⟩ := ih (by omega)
       exact ⟨r, hr, by omega⟩
+
+/-- `goSlice` computes `take`/`drop` -/
+theorem goSlice_eq (s : Bytes) (lo hi : Nat) (h : lo ≤ hi ∧ hi ≤ s.length) :
+    goSlice s (lo : Int) (hi : Int) = .ok ((s.take hi).drop lo) := by
+  unfold goSlice
+  rw [if_pos (by omega)]
+  simp
+
+theorem goSliceTo_eq (s : Bytes) (hi : Nat) (h : hi ≤ s.length) : goSliceTo s (hi : Int) = .ok (s.take hi) := by
+  unfold goSliceTo goSlice
+  rw [if_pos (by omega)]
+  simp
+
+theorem goSliceFrom_eq (s : Bytes) (lo : Nat) (h : lo ≤ s.length) : goSliceFrom s (lo : Int) = .ok (s.drop lo) := by
+  unfold goSliceFrom goSlice
+  rw [if_pos (by omega)]
+  simp
+
+theorem goIndex_eq (s : Bytes) (i : Nat) (h : i < s.length) : goIndex s (i : Int) = .ok s[i] := by
+  unfold goIndex
+  rw [if_pos (by omega)]
+  simp [List.getElem?_eq_getElem h]
+
+/-- the Fault-explicit loop computes C13's `truncPoint` (whose `none` branch is unreachable here) -/
+theorem backToRuneStart_eq (s : Bytes) : ∀ cut : Nat, cut < s.length →
+    backToRuneStart s cut = .ok (GB.C13.truncPoint s cut) := by
+  intro cut
+  induction cut with
+  | zero => intro _; rfl
+  | succ n ih =>
+    intro h
+    unfold backToRuneStart GB.C13.truncPoint
+    have hi := goIndex_eq s (n + 1) h
+    rw [hi]
+    simp only [bind, Except.bind, List.getElem?_eq_getElem h]
+    split
+    · rfl
+    · exact ih (by omega)
 
 end GB.C17
